@@ -52,12 +52,14 @@ func Range(c Collection, ids []string, filter *Filter, sort []string, size uint,
 	// Pagination
 	var page Resources
 
-	skip := int(num * size)
+	// The bounds are compared as unsigned numbers so that a size or a
+	// number beyond the range of int cannot wrap around.
+	n := uint(len(col.col))
 
-	if skip >= len(col.col) {
-		col = sortedResources{}
-	} else {
-		for i := skip; i < len(col.col) && i < skip+int(size); i++ {
+	if size > 0 && num <= n/size {
+		skip := num * size
+
+		for i := skip; i < n && i-skip < size; i++ {
 			page = append(page, col.col[i])
 		}
 	}
